@@ -237,6 +237,28 @@ func genNQuery(r *Rng, depth int, only string) nq {
 		}
 		return nq{bleve.NewConjunctionQuery(qs...), fmt.Sprintf("C %d%s", n, sb.String()), false, false, false, false}
 	}
+	if only == "*" && r.Chance(10) {
+		// hot shape: a top-level clause and three or four clauses on one array, some of them the same clause twice:
+		// several conjuncts are met by one and the same element
+		e1, e2 := genNLeaf(r, "emps"), genNLeaf(r, "emps")
+		top := genNLeafTop(r)
+		cl := []nq{top, e1, e2, e1}
+		if r.Bool() {
+			cl = append(cl, e2)
+		}
+		r2 := r.Fork()
+		for i := len(cl) - 1; i > 0; i-- {
+			j := r2.Intn(i + 1)
+			cl[i], cl[j] = cl[j], cl[i]
+		}
+		qs := make([]query.Query, len(cl))
+		var sb strings.Builder
+		for i, k := range cl {
+			qs[i] = k.q
+			sb.WriteString(" " + k.tok)
+		}
+		return nq{bleve.NewConjunctionQuery(qs...), fmt.Sprintf("C %d%s", len(cl), sb.String()), false, false, false, false}
+	}
 	if only == "*" && r.Chance(18) {
 		// hot shape: a cross-level conjunction that is itself a clause of a conjunction whose other clauses
 		// address the remaining levels: the outer one Advances the inner nested conjunction over whole groups
